@@ -321,6 +321,7 @@ func (t tMapPayload) Tags() ([]PointerTag, error) {
 		{Pointer: "/token", Classification: SecretClassification, Filter: RedactOperation},
 		{Pointer: "/user", Classification: SensitiveClassification, Filter: HmacSha256Operation},
 		{Pointer: "/note", Classification: PublicClassification, Filter: NoOperation},
+		{Pointer: "/blob", Classification: SensitiveClassification, Filter: HmacSha256Operation},
 	}, nil
 }
 
@@ -335,7 +336,8 @@ func H_C09_toplevel() {
 	case 0:
 		e.Payload = map[string]interface{}{"k": a, "n": 1}
 	case 1:
-		e.Payload = tMapPayload{"token": a, "user": b, "note": "n", "other": a, "sub": map[string]interface{}{"token": b, "x": a}}
+		// "blob" is a byte-slice value reached through a pointer tag: what is protected is its bytes, not a rendering of them
+		e.Payload = tMapPayload{"token": a, "user": b, "note": "n", "other": a, "blob": []byte(b), "sub": map[string]interface{}{"token": b, "x": a}}
 	case 2:
 		e.Payload = []string{a, b}
 	case 3:
@@ -384,6 +386,12 @@ func H_C09_toplevel() {
 			c.checkLeaf(tok, a, "secret", RedactOperation, "C09.toplevel.taggable.secret")
 			c.checkLeaf(usr, b, "sensitive", HmacSha256Operation, "C09.toplevel.taggable.sensitive")
 			verifAssert(m["note"] == "n", "C09.toplevel.taggable.public-kept")
+			// a filtered entry comes back as text, an entry kept as is still holds its bytes
+			blob, isStr := m["blob"].(string)
+			if raw, isBytes := m["blob"].([]byte); !isStr && isBytes {
+				blob = string(raw)
+			}
+			c.checkLeaf(blob, b, "sensitive", HmacSha256Operation, "C09.toplevel.taggable.bytes-entry")
 			c.checkLeaf(oth, a, "", NoOperation, "C09.toplevel.taggable.untagged-entry")
 			if sub, ok := m["sub"].(map[string]interface{}); ok {
 				st, _ := sub["token"].(string)
